@@ -52,6 +52,8 @@ CALLBACKS = [
     ('default', None, None),
     ('braces', lambda names: '{%s}' % ','.join(names), lambda names: '<%s>' % ';'.join(names)),
     ('count', lambda names: '%d objs' % len(list(names)), lambda names: ''),
+    ('objects-only', lambda names: '[%s]' % '+'.join(names), None),
+    ('properties-only', None, lambda names: '(%s)' % '/'.join(names)),
 ]
 
 
@@ -72,7 +74,9 @@ def run(run):
         for name, mo, mp in order:
             kw = {}
             if mo is not None:
-                kw = {'make_object_label': mo, 'make_property_label': mp}
+                kw['make_object_label'] = mo
+            if mp is not None:
+                kw['make_property_label'] = mp
             fo = mo or ' '.join
             fp = mp or ' '.join
             with guard(run, 'lattice.graphviz(%s callbacks)' % name, [pc.line, 'dot']):
